@@ -304,7 +304,13 @@ generate (uint64_t seed, int tier, const char *property, scenario_t *sc)
 	if (rng_chance (&r, 1, 2)) gen_transform (&g, k, TC_ANY);
 	if (rng_chance (&r, 1, 2)) gen_filter (&g, k, 1);
 	if (rng_chance (&r, 1, 2)) gen_repeat (&g, k);
-	if (rng_chance (&r, 1, 4) && g.s[k].kind == MOP_BITS) gen_clip (&g, k, 0);
+	if (rng_chance (&r, 1, 3))
+	{
+	    /* a client clip that applies to the image as a source */
+	    int64_t a[6] = { 0, 0, 0, k, 1 };
+	    gen_clip (&g, k, 0);
+	    if (rng_chance (&r, 3, 4)) { sc_addv (sc, MOP_SET_CLIENT_CLIP, 5, a); sc_addv (sc, MOP_SET_SOURCE_CLIPPING, 5, a); }
+	}
     }
     /* the first use, on the main thread, before any worker exists */
     for (k = SH0; k < M_NIMG; k++) gen_composite (&g, 1, k, -1, 0);
